@@ -16,6 +16,24 @@ import zlib
 from . import env
 
 
+_STOP = None       # multiprocessing.Event shared by the pool: a violation was found, finish up
+_KEEP_GOING = False
+
+
+def init_pool(stop_event, keep_going):
+    global _STOP, _KEEP_GOING
+    _STOP, _KEEP_GOING = stop_event, keep_going
+
+
+def stop_requested():
+    return _STOP is not None and _STOP.is_set()
+
+
+def request_stop():
+    if _STOP is not None and not _KEEP_GOING:
+        _STOP.set()
+
+
 class HarnessError(Exception):
     pass
 
